@@ -88,7 +88,9 @@ impl Type {
                 Some(Self::List(Box::new(elm_typ)))
             }
             (Self::Record(self_record_id, _), Self::Record(other_record_id, _)) => {
+                // the classes both inherit from, nearest first
                 let other_record = symbol_map.record(*other_record_id);
+                let mut common = Vec::new();
                 let mut visited = HashSet::new();
                 let mut stack = vec![*self_record_id];
                 while let Some(record_id) = stack.pop() {
@@ -99,12 +101,30 @@ impl Type {
                     if record_id != *self_record_id
                         && other_record.is_subclass_of(symbol_map, record_id)
                     {
-                        return Some(Self::Record(record_id, record.name.clone()));
+                        common.push(record_id);
                     }
                     // depth first, the first parent first
                     stack.extend(record.parent_list.iter().rev());
                 }
-                None
+                // … without those that another common class inherits from
+                let nearest: Vec<RecordId> = common
+                    .iter()
+                    .copied()
+                    .filter(|class_id| {
+                        !common.iter().any(|other_id| {
+                            other_id != class_id
+                                && symbol_map.record(*other_id).is_subclass_of(symbol_map, *class_id)
+                        })
+                    })
+                    .collect();
+                match nearest[..] {
+                    [] => None,
+                    [class_id] => {
+                        Some(Self::Record(class_id, symbol_map.record(class_id).name.clone()))
+                    }
+                    // a record of several classes: there is no single type for that
+                    _ => Some(Self::Unknown),
+                }
             }
             _ => None,
         }
